@@ -162,26 +162,38 @@ func solve(script string, total time.Duration, all bool) (SolveResult, []SolveRe
 		}
 		return best, tried
 	}
-	// thorough: all solvers to completion, report disagreement
+	// thorough: all three solvers; once one has decided, the others get a short grace period to agree or
+	// disagree (a disagreement between solvers is reported as an error), then they are cancelled
 	ch := make(chan SolveResult, len(solvers))
 	for _, sp := range solvers {
 		sp := sp
 		go func() { ch <- runSolver(ctx, sp, script, total) }()
 	}
 	var best SolveResult
-	for range solvers {
-		r := <-ch
-		tried = append(tried, r)
-		if r.Status == "unsat" || r.Status == "sat" {
-			if best.Status == "unsat" || best.Status == "sat" {
-				if best.Status != r.Status {
-					return SolveResult{Status: "error", Solver: "disagreement", Raw: best.Solver + "=" + best.Status + " " + r.Solver + "=" + r.Status}, tried
+	var grace <-chan time.Time
+	got := 0
+	for got < len(solvers) {
+		select {
+		case r := <-ch:
+			got++
+			tried = append(tried, r)
+			if r.Status == "unsat" || r.Status == "sat" {
+				if best.Status == "unsat" || best.Status == "sat" {
+					if best.Status != r.Status {
+						return SolveResult{Status: "error", Solver: "disagreement", Raw: best.Solver + "=" + best.Status + " " + r.Solver + "=" + r.Status}, tried
+					}
+					continue
 				}
-				continue
+				best = r
+				if grace == nil {
+					grace = time.After(3 * time.Second)
+				}
+			} else if best.Status == "" {
+				best = r
 			}
-			best = r
-		} else if best.Status == "" {
-			best = r
+		case <-grace:
+			cancel()
+			return best, tried
 		}
 	}
 	return best, tried
